@@ -82,12 +82,12 @@ def run(ck):
         Rx = numpy.array([[1, 0, 0], [0, math.cos(c), -math.sin(c)], [0, math.sin(c), math.cos(c)]])
         return Rz @ Ry @ Rx
 
-    def make(nmol, energies, dips, poss, couplings, reorgs, cortimes, scale=1.0, perm=None, Q=None, dd_coupling=False):
+    def make(nmol, energies, dips, poss, couplings, reorgs, cortimes, scale=1.0, perm=None, Q=None, dd_coupling=False, ground=0.0):
         idx = list(range(nmol)) if perm is None else perm
         with energy_units("1/cm"):
             mols = []
             for k in idx:
-                m = Molecule([0.0, energies[k]])
+                m = Molecule([ground, ground + energies[k]])
                 d = numpy.array(dips[k]) * scale
                 p = numpy.array(poss[k])
                 if Q is not None:
@@ -259,6 +259,29 @@ def run(ck):
                 if numpy.abs(numpy.array(s7.get_TransitionDipoleMoment().data) - d_op0).max() > 1e-12:
                     ck.fail("unchanged:dipole-operator:after-diagonalize", "the system's dipole operator changed (diagonalize + two spectrum calculations)", inp,
                             float(numpy.abs(numpy.array(s7.get_TransitionDipoleMoment().data) - d_op0).max()))
+            if nmol >= 2:
+                # prior use: the dipole strengths of the site transitions were asked for before the spectrum is calculated
+                s8 = make(nmol, energies, dips, poss, couplings, reorgs, cortimes)
+                D8 = s8.get_TransitionDipoleMoment()
+                site_strengths = [float(D8.dipole_strength(0, k_ + 1)) for k_ in range(nmol)]
+                _, sp8 = spectrum(s8)
+                if numpy.abs(numpy.array(sp8.data) - data).max() > 1e-9 * numpy.abs(data).max():
+                    ck.fail("prior-use:spectrum", "spectrum of the same system differs after the dipole strengths of the site transitions were read",
+                            dict(inp, history="get_TransitionDipoleMoment().dipole_strength(0,k) for all k; calculate"),
+                            float(numpy.abs(numpy.array(sp8.data) - data).max() / numpy.abs(data).max()))
+                again = [float(s8.get_TransitionDipoleMoment().dipole_strength(0, k_ + 1)) for k_ in range(nmol)]
+                want8 = [float(numpy.dot(dips[k_], dips[k_])) for k_ in range(nmol)]
+                if max(abs(a_ - b_) for a_, b_ in zip(again, want8)) > 1e-9 * max(want8) or max(abs(a_ - b_) for a_, b_ in zip(site_strengths, want8)) > 1e-9 * max(want8):
+                    ck.fail("unchanged:dipole-strengths", "dipole strengths of the site transitions read before / after the calculation are not |d_k|^2", inp,
+                            [site_strengths, again], want8)
+            # the energy origin of the molecules moved (ground states at 300 1/cm, the same transition energies): the same spectrum
+            if h % 2 == 0:
+                _, sp9 = spectrum(make(nmol, energies, dips, poss, couplings, reorgs, cortimes, ground=300.0))
+                d9 = float(numpy.abs(numpy.array(sp9.data) - data).max() / numpy.abs(data).max())
+                ck.resid("spectrum with ground-state energies at 300 1/cm vs at zero", d9)
+                if d9 > 1e-9:
+                    ck.fail("line-position:ground-state-offset", "with the ground states of the molecules at 300 1/cm (same transition energies) the spectrum differs: "
+                            "the lines no longer sit at the transition energies", dict(inp, ground_state_energy_cm=300.0), d9)
             Q = rot()
             _, sp3 = spectrum(make(nmol, energies, dips, poss, couplings, reorgs, cortimes, Q=Q))
             if numpy.abs(numpy.array(sp3.data) - data).max() > 1e-9 * numpy.abs(data).max():
